@@ -628,6 +628,13 @@ func (fv *FV) loopBack(li *LoopInfo, es *State) {
 	for i, inv := range li.spec.Invariants {
 		fv.obligeSpec(es, "inv-keep", fmt.Sprintf("loop%d:%s", li.ord, clauseLabel(inv, i)), ctx, inv, li.head.Instrs[0].Pos(), inv.Props, fmt.Sprintf("loop %d invariant", li.ord))
 	}
+	if len(li.spec.Steps) > 0 && li.havocSt != nil {
+		sctx := *ctx
+		sctx.loopHead = li.havocSt
+		for i, stp := range li.spec.Steps {
+			fv.obligeSpec(es, "step", fmt.Sprintf("loop%d:%s", li.ord, clauseLabel(stp, i)), &sctx, stp, li.head.Instrs[0].Pos(), stp.Props, fmt.Sprintf("loop %d step", li.ord))
+		}
+	}
 }
 
 // loopWrites: register cells assigned and heap families written inside a loop.
